@@ -76,11 +76,11 @@ class Dataset:
         self.groups.clear()
         self.meta.clear()
 
-    def get(self, key, default):
+    def get(self, key, default=None):
         return self.groups.get(key, default)
 
-    def pop(self, key):
-        return self.groups.pop(key)
+    def pop(self, key, *default):
+        return self.groups.pop(key, *default)
 
     def update(self, *args, **kwargs):
         d = dict(*args, **kwargs)
